@@ -403,6 +403,13 @@ func genC17Backend(t *rapid.T) interface{} {
 		k := DrawIntn(t, 2, "rk")
 		c.Steps = append(c.Steps, c17Step{W: &WOp{Kind: "delete", K: k, Exp: "ok"}}, c17Step{W: &WOp{Kind: "create", K: k, V: 2}})
 	}
+	leased := DrawBool(t, 45, "leasedWrite")
+	if leased {
+		// a request that carries a lease of 1..2 s on a key that must never expire (or on an Event: it must still live
+		// for the configured TTL); the case lasts long enough for a wrongly applied lease to run out
+		c.Steps = append(c.Steps, c17Step{W: &WOp{Kind: "update", K: rapid.IntRange(0, len(c.Keys)-1).Draw(t, "leasedKey"), V: 1, Exp: "ok",
+			Lease: rapid.SampledFrom([]int64{1, 1, 2}).Draw(t, "leaseSecs")}})
+	}
 	n := rapid.IntRange(1, 4).Draw(t, "nsteps")
 	for i := 0; i < n; i++ {
 		s := c17Step{Pause: rapid.SampledFrom([]int{0, 300, 600, 1100}).Draw(t, "pause")}
@@ -411,10 +418,21 @@ func genC17Backend(t *rapid.T) interface{} {
 		} else {
 			kind := rapid.SampledFrom([]string{"update", "update", "delete", "create"}).Draw(t, "kind")
 			s.W = &WOp{Kind: kind, K: DrawIntn(t, 2, "key"), V: rapid.IntRange(0, 7).Draw(t, "v"), Exp: "ok"}
+			if kind == "update" && DrawBool(t, 40, "anyKey") {
+				s.W.K = DrawIntn(t, len(c.Keys), "key4") // look-alikes and ordinary keys are written too
+			}
+			if kind != "delete" {
+				// requests may carry a lease (kube-apiserver attaches one to Events); it must not make anything expire
+				s.W.Lease = rapid.SampledFrom([]int64{0, 0, 1, 1, 2}).Draw(t, "lease")
+			}
 		}
 		c.Steps = append(c.Steps, s)
 	}
-	c.Steps = append(c.Steps, c17Step{Mark: true, Pause: rapid.SampledFrom([]int{600, 1500, 2300}).Draw(t, "plast")})
+	plast := rapid.SampledFrom([]int{600, 1500, 2300}).Draw(t, "plast")
+	if leased && plast < 1500 {
+		plast = 1500
+	}
+	c.Steps = append(c.Steps, c17Step{Mark: true, Pause: plast})
 	c.Steps = append(c.Steps, c17Step{Mark: true, Pause: rapid.SampledFrom([]int{0, 300}).Draw(t, "plast2")})
 	return c
 }
@@ -526,7 +544,7 @@ func runC17Backend(ci interface{}, st *CaseStats) error {
 		st.Label("expired-between-look-and-write")
 		delete(env.M.Keys, key)
 		expired[key] = true
-		return env.DoWrite(WOp{Kind: "create", K: op.K, V: op.V})
+		return env.DoWrite(WOp{Kind: "create", K: op.K, V: op.V, Lease: op.Lease})
 	}
 	for si, s := range c.Steps {
 		if s.Pause > 0 {
@@ -537,16 +555,16 @@ func runC17Backend(ci interface{}, st *CaseStats) error {
 			op := *s.W
 			_, isLive := env.M.Live(key)
 			if expired[key] || !isLive {
-				op = WOp{Kind: "create", K: s.W.K, V: s.W.V}
+				op = WOp{Kind: "create", K: s.W.K, V: s.W.V, Lease: s.W.Lease}
 			} else if op.Kind == "create" {
-				op = WOp{Kind: "update", K: s.W.K, V: s.W.V, Exp: "ok"}
+				op = WOp{Kind: "update", K: s.W.K, V: s.W.V, Exp: "ok", Lease: s.W.Lease}
 			}
 			// the key may have expired since the last check: look first, so that the model is current
 			if err := check(si, time.Now()); err != nil {
 				return err
 			}
 			if expired[key] {
-				op = WOp{Kind: "create", K: s.W.K, V: s.W.V}
+				op = WOp{Kind: "create", K: s.W.K, V: s.W.V, Lease: s.W.Lease}
 			}
 			t0 := time.Now()
 			res, err := writeTolerant(si, op)
